@@ -62,7 +62,7 @@ func (a *An) c04Sender(rule string) {
 	fld := a.MustField("keyPairCounter", "ourCounter")
 	n := 0
 	for _, st := range a.DirectStoresTo(fld) {
-		if st.Parent() == fn && a.C.Term(st.Val) == "1" {
+		if a.C.within(st, fn) && a.C.Term(st.Val) == "1" {
 			n++
 			fs := a.F.LocalAt(st)
 			found := false
@@ -122,17 +122,17 @@ func (a *An) c04Rotation(rule string) {
 		id := a.MustField("keyManagementContext", "ourKeyID")
 		var sc, sp, sid *ssa.Store
 		for _, st := range a.DirectStoresTo(cur) {
-			if st.Parent() == f {
+			if a.C.within(st, f) {
 				sc = st
 			}
 		}
 		for _, st := range a.DirectStoresTo(prev) {
-			if st.Parent() == f {
+			if a.C.within(st, f) {
 				sp = st
 			}
 		}
 		for _, st := range a.DirectStoresTo(id) {
-			if st.Parent() == f {
+			if a.C.within(st, f) {
 				sid = st
 			}
 		}
@@ -152,17 +152,17 @@ func (a *An) c04Rotation(rule string) {
 		id := a.MustField("keyManagementContext", "theirKeyID")
 		var sc, sp, sid *ssa.Store
 		for _, st := range a.DirectStoresTo(cur) {
-			if st.Parent() == f {
+			if a.C.within(st, f) {
 				sc = st
 			}
 		}
 		for _, st := range a.DirectStoresTo(prev) {
-			if st.Parent() == f {
+			if a.C.within(st, f) {
 				sp = st
 			}
 		}
 		for _, st := range a.DirectStoresTo(id) {
-			if st.Parent() == f {
+			if a.C.within(st, f) {
 				sid = st
 			}
 		}
@@ -214,7 +214,7 @@ func (a *An) c04Split(rule string) {
 		return
 	}
 	for _, st := range a.DirectStoresTo(a.MustField("plainDataMsg", "message")) {
-		if st.Parent() != fn {
+		if !a.C.within(st, fn) {
 			continue
 		}
 		t := a.C.Term(st.Val)
